@@ -54,7 +54,7 @@ UEnums ==
   [EI |-> << <<"ONE", DInt(1)>>, <<"TWO", DInt(2)>> >>,
    ES |-> << <<"A", DStr("a")>>, <<"B", DStr("b")>> >>,
    EM |-> << <<"X", DInt(1)>>, <<"Y", DStr("a")>> >>,
-   E1 |-> << <<"ONLY", DInt(7)>> >>]
+   E1 |-> << <<"ONLY", DInt(0)>> >>]
 
 \* hand-listed class tables: each class exercises one or two object features
 UClasses ==
@@ -140,7 +140,7 @@ Ctx(O) == [C |-> UClasses, En |-> UEnums, O |-> O, S |-> UStrAttr]
 Leaves ==
   { TNone, TBool, TInt, TFloat, TStr, TAny,
     TLit(<<DInt(1), DInt(2)>>), TLit(<<DStr("a"), DStr("b")>>), TLit(<<DInt(1), DStr("a")>>),
-    TLit(<<DStr("a")>>), TEnum("E1"),            \* single-valued: the schema uses `const`
+    TLit(<<DStr("")>>), TEnum("E1"),             \* single-valued and FALSY: the schema uses `const`
     TEnum("EI"), TEnum("ES"), TEnum("EM"),
     TNew("NI", TInt),
     TAnnot(TInt,   << <<"min", 2>>, <<"max", 6>> >>),
